@@ -556,6 +556,39 @@ func (dm *DagModifier) appendData(nd ipld.Node, spl chunker.Splitter) (ipld.Node
 
 	switch nd := nd.(type) {
 	case *mdag.ProtoNode:
+		// A single node that holds the file data inline cannot simply be
+		// given children: readers ignore the inline data of a node that has
+		// links. Make it the first leaf of a new root first (like the
+		// RawNode case below).
+		if len(nd.Links()) == 0 {
+			leaf, err := ft.FSNodeFromBytes(nd.Data())
+			if err != nil {
+				return nil, err
+			}
+			if len(leaf.Data()) > 0 {
+				root := ft.NewFSNode(ft.TFile)
+				root.AddBlockSize(uint64(len(leaf.Data())))
+				if leaf.Mode() != 0 {
+					root.SetMode(leaf.Mode())
+				}
+				if !leaf.ModTime().IsZero() {
+					root.SetModTime(leaf.ModTime())
+				}
+				rootBytes, err := root.GetBytes()
+				if err != nil {
+					return nil, err
+				}
+				rootNode := mdag.NodeWithData(rootBytes)
+				rootNode.SetCidBuilder(nd.CidBuilder())
+				if err := dagserv.Add(dm.ctx, nd); err != nil {
+					return nil, err
+				}
+				if err := rootNode.AddNodeLink("", nd); err != nil {
+					return nil, err
+				}
+				nd = rootNode
+			}
+		}
 		// ProtoNode can be directly passed to trickle.Append
 		dbp := &help.DagBuilderParams{
 			Dagserv:    dagserv,
